@@ -110,7 +110,7 @@ pub fn from_ms<Pk: Atom, Ctx: ScriptContext>(ms: &Miniscript<Pk, Ctx>) -> Option
 }
 
 /// real keys / hashes → decimal id strings
-struct ToIds;
+pub(crate) struct ToIds;
 impl<P: Atom> Translator<P> for ToIds {
     type TargetPk = String;
     type Error = ();
@@ -135,7 +135,7 @@ fn raw_id(h: &hash160::Hash) -> Option<u32> {
 }
 
 /// raw-pkh atoms: 40-hex hash ↔ decimal id inside a miniscript string
-fn rawpkh_hex_to_ids(s: &str) -> String {
+pub(crate) fn rawpkh_hex_to_ids(s: &str) -> String {
     let mut r = s.to_string();
     for id in (0..10).chain(200..210) {
         let h = ast::raw_pkh(id).to_string();
@@ -599,6 +599,7 @@ pub fn run_roundtrip(out: &mut Out, thorough: bool, rng: &mut Rng) {
     let km = key_material();
     let wps = run_wallet(out, &km);
     run_malformed_other(out, thorough, rng, &descs, &pols, &wps, &km);
+    gap::run_desc_model(out, thorough, rng, &ms);
     gap::run_policies_real(out, thorough, rng, &km);
     gap::run_wallet_gen(out, thorough, rng, &km);
     gap::run_keyforms(out, &km);
